@@ -1143,6 +1143,9 @@ class ImmutableVersion(Version):
         self.nodes = dns.immutable.Dict(
             version.nodes, True, self.zone.map_factory
         )  # pyright: ignore
+        # The writable version is finished: it must not keep a mutable handle on the
+        # mapping that is now shared with this immutable version.
+        version.nodes = self.nodes  # pyright: ignore
 
 
 class Transaction(dns.transaction.Transaction):
